@@ -454,6 +454,30 @@ func runC02(r *fw.Runner) {
 			}
 		}
 	}
+	// configurations at the restrictive end: an empty list of allowed signature / key algorithms allows none
+	for _, typ := range []byte("urd") {
+		typ := typ
+		for ci, cfg := range []string{"no-signature-algorithms(nil)", "no-signature-algorithms(empty)", "no-key-algorithms(nil)", "no-key-algorithms(empty)"} {
+			ci, cfg := ci, cfg
+			r.Case("restrictive-configuration", func(c *fw.Case) {
+				proto := histProto(true)
+				switch ci {
+				case 0:
+					proto.SignatureAlgorithms = nil
+				case 1:
+					proto.SignatureAlgorithms = []string{}
+				case 2:
+					proto.KeyAlgorithms = nil
+				case 3:
+					proto.KeyAlgorithms = []string{}
+				}
+				c.Sig("restrictive", cfg, typ)
+				c.Count("restrictive-configurations", 1)
+				kt := fw.Pick(c.Rng, gen.SigningKeyTypes)
+				runHistoryProto(c, []planEntry{{'c', "valid", nil}, {typ, cfg, func(h *histCtx, s *opStep) { s.Facts.ParseOK = false }}}, kt, 18, proto, true, "C01")
+			})
+		}
+	}
 	// every bit of the signature
 	for _, typ := range []byte("urd") {
 		typ := typ
